@@ -78,7 +78,7 @@ class Workspace:
         with open(os.path.join(r, "app", "Cargo.toml"), "w") as f:
             f.write("[package]\nname = \"app\"\nversion = \"0.1.0\"\nedition = \"2024\"\n"
                     "[lints.rust.unexpected_cfgs]\nlevel = \"allow\"\ncheck-cfg = [\"cfg(pavex_ide_hint)\"]\n"
-                    "[dependencies]\npavex = { workspace = true }\n")
+                    "[dependencies]\npavex = { workspace = true }\nserde = { version = \"1\", features = [\"derive\"] }\n")
         with open(os.path.join(r, "app", "src", "rt.rs"), "w") as f:
             f.write(gen_app.RT_RS)
         with open(os.path.join(r, "app", "src", "lib.rs"), "w") as f:
